@@ -103,7 +103,7 @@ def _cfg_dir(variant):
     return d
 
 
-def build(variant, harness_srcs, exe_name, extra_cflags="", redirect=True):
+def build(variant, harness_srcs, exe_name, extra_cflags="", redirect=True, repo_cflags="", objtag=""):
     """Compile json-c (variant) + harness sources into .build/<variant>/<exe_name>; returns path.
 
     Rebuilds from the repository's current working tree: objects are keyed by a hash of the
@@ -119,13 +119,13 @@ def build(variant, harness_srcs, exe_name, extra_cflags="", redirect=True):
                        *[file_sha(os.path.join(HARNESS, f)) for f in sorted(os.listdir(HARNESS)) if f.endswith(".h")])
         inc = "-D_GNU_SOURCE -DJSON_C_VERIF -I%s -I%s -I%s" % (cfg, REPO, HARNESS)
         red = ("-include %s/redirect.h" % HARNESS) if redirect else ""
-        odir = os.path.join(BUILD, variant, "obj")
+        odir = os.path.join(BUILD, variant, "obj" + objtag)
         os.makedirs(odir, exist_ok=True)
         jobs = []
         objs = []
         for s in srcs:
             path = os.path.join(REPO, s)
-            flags = "%s %s %s %s" % (cflags, inc, red, extra_cflags if False else "")
+            flags = "%s %s %s %s" % (cflags, inc, red, repo_cflags)
             key = sha(file_sha(path), hdr_hash, flags, cc)[:16]
             obj = os.path.join(odir, "%s.%s.o" % (s[:-2], key))
             objs.append(obj)
